@@ -610,4 +610,64 @@ def stmts_lexPathSegment : List String := [
    "}"
   ]
 
+def conds_path_delRule : List String := [
+   "func (*path) delRule(name string) bool",
+   "range p.segments",
+   "if ok := s.delRule(name); ok",
+   "if !s.alive()",
+   "return ok",
+   "range p.variables",
+   "if ok := v.next.delRule(name); ok",
+   "if !v.next.alive()",
+   "return ok",
+   "range p.methods",
+   "if m.name == name",
+   "return true",
+   "return false"
+  ]
+
+def stmts_path_delRule : List String := [
+   "{",
+   "for k, s := range p.segments {",
+   "if ok := s.delRule(name); ok {",
+   "if !s.alive() {",
+   "delete(p.segments, k)",
+   "}",
+   "return ok",
+   "}",
+   "}",
+   "for i, v := range p.variables {",
+   "if ok := v.next.delRule(name); ok {",
+   "if !v.next.alive() {",
+   "p.variables = append(",
+   "p.variables[:i], p.variables[i+1:]...,",
+   ")",
+   "}",
+   "return ok",
+   "}",
+   "}",
+   "for k, m := range p.methods {",
+   "if m.name == name {",
+   "delete(p.methods, k)",
+   "return true",
+   "}",
+   "}",
+   "return false",
+   "}"
+  ]
+
+def conds_path_alive : List String := [
+   "func (*path) alive() bool",
+   "return p.methodAll != nil || len(p.methods) != 0 || len(p.variables) != 0 || len(p.segments) != 0"
+  ]
+
+def stmts_path_alive : List String := [
+   "{",
+   "return p.methodAll != nil ||",
+   "len(p.methods) != 0 ||",
+   "len(p.variables) != 0 ||",
+   "len(p.segments) != 0",
+   "}"
+  ]
+
 end Larking.Expected.C02
